@@ -689,6 +689,28 @@ impl<'a> Rf<'a> {
                 Ok((Val::pair(Val::Span(pos, e), v), e))
             }
             Unwrapped(a) => self.ev(a, pos, env),
+            IntoIter(a, k) => {
+                let (v, e) = self.ev(a, pos, env)?;
+                let items = v.into_items();
+                match *k {
+                    0 => Ok((Val::List(items), e)),
+                    1 => Ok((Val::Num(items.len() as u64), e)),
+                    n => {
+                        let n = (n - 2) as usize;
+                        if items.len() == n {
+                            Ok((Val::List(items), e))
+                        } else if items.len() < n {
+                            // the fixed-size collection runs short: a failure of this parser, where it stands
+                            self.event(e, BTreeSet::new(), (e, e));
+                            Err(())
+                        } else {
+                            // more items than N: not specified (V-exactly-more)
+                            self.stats.fuel_out = true;
+                            Err(())
+                        }
+                    }
+                }
+            }
             G::Rep(r) => {
                 if r.ctxb != 0 {
                     self.saw_ctx(g, &env.ctx);
@@ -1078,7 +1100,8 @@ impl<'a> Rf<'a> {
                 if items.len() == *k as usize {
                     Ok((Val::List(vals(items)), p))
                 } else {
-                    // too few items: the fixed-size collection fails (no event of its own)
+                    // too few items: the fixed-size collection fails, where the iterator ended
+                    self.event(p, BTreeSet::new(), (p, p));
                     Err(())
                 }
             }
